@@ -111,9 +111,12 @@ class DocModel:
                 out += ["", "Attributes", "----------"]
                 for n, t, d in self.attrs:
                     out += [f"{n} : {t}", *[f"    {x}" for x in d]]
+            early = self.examples[:1] if len(self.examples) > 1 else []
+            for ex in early:
+                out += ["", "Examples", "--------", *[(">>> " if i == 0 else "... ") + c for i, c in enumerate(ex)]]
             if self.result:
                 out += ["", "Returns", "-------", self.result[0], *[f"    {x}" for x in self.result[1]]]
-            for ex in self.examples:
+            for ex in self.examples[len(early):]:
                 out += ["", "Examples", "--------", *[(">>> " if i == 0 else "... ") + c for i, c in enumerate(ex)]]
         elif style == "google":
             if self.params:
@@ -124,9 +127,12 @@ class DocModel:
                 out += ["", "Attributes:"]
                 for n, t, d in self.attrs:
                     out += [f"    {n} ({t}): {d[0]}", *[f"        {x}" for x in d[1:]]]
+            early = self.examples[:1] if len(self.examples) > 1 else []
+            for ex in early:
+                out += ["", "Examples:", *["    " + (">>> " if i == 0 else "... ") + c for i, c in enumerate(ex)]]
             if self.result:
                 out += ["", "Returns:", f"    {self.result[0]}: {self.result[1][0]}", *[f"        {x}" for x in self.result[1][1:]]]
-            for ex in self.examples:
+            for ex in self.examples[len(early):]:
                 out += ["", "Examples:", *["    " + (">>> " if i == 0 else "... ") + c for i, c in enumerate(ex)]]
         elif style == "rest":
             if self.params or self.result or self.attrs:
@@ -174,6 +180,9 @@ def build_module(rng, tok: Tok, gated: set, common_only: bool, n_elems: int, nam
                     m.attrs.append((a, "int", [tok.line(rng, "a")]))
             if kind in ("func", "class", "method") and rng.random() < 0.3:
                 m.examples.append([f"call_{tok.prefix}_{tok.n}(1)", "more(2)"][: rng.randint(1, 2)])
+                if rng.random() < 0.5:
+                    # a second Examples section (the first one stands before the Returns section, this one at the end)
+                    m.examples.append([f"again_{tok.prefix}_{tok.n}(3)", f"and_more_{tok.n}(4)"][: rng.randint(1, 2)])
         return m
 
     method_names = ["run", "stop", "reset"]
